@@ -200,3 +200,55 @@ func c05NilResults(ctx *core.Ctx, r *RT) {
 func isErrorType(t types.Type) bool {
 	return types.Identical(t, types.Universe.Lookup("error").Type())
 }
+
+// c05ServerLoopErrors — C05.R9: in a per-connection server loop (a cycle
+// around FProcessor.Process) the error of Process is looked at on every way
+// back to the next Process: there is no path from the call to the call again
+// that does not test that very error value against nil. (An `if err, ok :=
+// err.(T); …; else if err != nil` chain tests the *shadowed* variable and lets
+// every error of another type through unnoticed.)
+func c05ServerLoopErrors(ctx *core.Ctx, r *RT) {
+	ctx.Rule("C05.R9", "connection loops look at every error: no way from FProcessor.Process back to the next Process without a nil test of that call's error", 1)
+	n := 0
+	for _, fn := range r.Fns {
+		for _, c := range ssax.Calls(fn) {
+			if c.Method == nil || c.Method.Name() != "Process" || !ssax.TypeNamed(c.Common.Value.Type(), "", "FProcessor") {
+				continue
+			}
+			in := c.Instr.(ssa.Instruction)
+			if !inCycle(in) {
+				continue
+			}
+			v, ok := in.(ssa.Value)
+			if !ok {
+				continue
+			}
+			n++
+			isCall := func(i ssa.Instruction) bool { return i == in }
+			// blocks that end in a nil test of v
+			tested := func(i ssa.Instruction) bool {
+				iff, ok := i.(*ssa.If)
+				if !ok {
+					return false
+				}
+				bo, ok := iff.Cond.(*ssa.BinOp)
+				if !ok || (bo.Op != token.NEQ && bo.Op != token.EQL) {
+					return false
+				}
+				isNilC := func(x ssa.Value) bool { c, ok := x.(*ssa.Const); return ok && c.IsNil() }
+				return (bo.X == v && isNilC(bo.Y)) || (bo.Y == v && isNilC(bo.X))
+			}
+			bad := ssax.PathFrom(fn, in, isCall, tested)
+			if bad == nil {
+				ctx.Discharge("C05.R9", ssax.Name(fn)+" › every error of Process is tested before the next request", r.IPos(in), "each way round the loop passes `err != nil` on the call's own error")
+			} else {
+				ctx.Violate("C05.R9", ssax.Name(fn)+" › every error of Process is tested before the next request", r.IPos(in),
+					"the loop can reach the next Process without having tested this call's error against nil (e.g. the test looks at a variable shadowed by a failed type assertion): an error that is not of the asserted type — a malformed header — is neither reported nor ends the connection, and the rest of the malformed frame is parsed as new requests",
+					ssax.PathString(r.V.Fset, bad)...)
+			}
+		}
+	}
+	if n == 0 {
+		ctx.Unresolved("C05.R9", "per-connection server loop", "no loop around FProcessor.Process found")
+	}
+}
